@@ -46,7 +46,8 @@ pub fn for_each_model(cfg: &SpaceCfg, rng: &mut Rng, mut f: impl FnMut(&GenFile,
         if i < cfg.random_c2d {
             let n = cfg.min_n + rng.below((cfg.max_n - cfg.min_n + 1) as usize) as u32;
             let depth = 1 + rng.below(5) as u32;
-            let file = random_c2d(rng, n, depth, false);
+            let with_constants = i % 3 == 2;   // every third random c2d circuit has true nodes below and-nodes and false nodes among or-alternatives (now and then listed twice)
+            let file = random_c2d(rng, n, depth, with_constants);
             let tt = file.tt();
             if tt.count() > 0 { f(&file, &tt); }
         }
